@@ -57,7 +57,10 @@ RangeEq(g, ea, B) ==
   /\ Len(ea.kv) = Len(B)
   /\ \A i \in 1..Len(B) : B[i].k = ea.kv[i][1]
   /\ CASE ea.op = "insr" -> (\A i \in 1..Len(B) : B[i].op = "ins") /\ ea.ret = Count1(B)
-       [] ea.op = "erar" -> (\A i \in 1..Len(B) : B[i].op = "era") /\ ea.ret = Count1(B)
+       \* tlru / utlru: whether erasing an expired, not yet removed entry counts is implementation
+       \* freedom (it may already have been discarded), so only the effect is compared there
+       [] ea.op = "erar" -> (\A i \in 1..Len(B) : B[i].op = "era")
+                            /\ (g.kind \in {"tlru", "utlru"} \/ ea.ret = Count1(B))
        [] ea.op \in {"findr", "findf"} ->
              /\ \A i \in 1..Len(B) : B[i].op = "find"
              /\ Len(ea.rl) = Len(B)
